@@ -44,8 +44,46 @@ def cluster_count(obs):
     return k, amb
 
 
+def joining(obs):
+    """'joined exactly when closer than the tolerance', judged pair by pair on isolated pairs of ends"""
+    tol = obs['min_seglen'] * 1e-3
+    ends = []
+    for k, o in enumerate(obs['objs']):
+        for e in (0, 1):
+            if not o['g%d' % e]:
+                ends.append((k, e, o['p%d' % e]))
+    # groups as the implementation joined them: registering end + everything in its conn list
+    group = {}
+    for k, o in enumerate(obs['objs']):
+        for e in (0, 1):
+            for (g, ow, ix, sgn) in o['conn%d' % e]:
+                if g == ow:                     # entry of a registering end: (ow, ix) attaches to (k, e)
+                    group[(ow, ix)] = (k, e)
+    def rep(x):
+        return group.get(x, x)
+    for i in range(len(ends)):
+        for j in range(i):
+            a, b = ends[i], ends[j]
+            if a[0] == b[0]:
+                continue
+            dd = math.dist(a[2], b[2])
+            # isolated pair: no third end within 2 tol of either
+            others = [c for c in ends if c is not a and c is not b and (math.dist(c[2], a[2]) <= 2 * tol or math.dist(c[2], b[2]) <= 2 * tol)]
+            if others:
+                continue
+            joined = rep((a[0], a[1])) == rep((b[0], b[1]))
+            if joined and dd > tol * (1 + 1e-9):
+                return 'ends %r and %r are joined although %.3g tolerances apart' % ((a[0], a[1]), (b[0], b[1]), dd / tol)
+            if not joined and dd < tol * (1 - 1e-9):
+                return 'ends %r and %r are not joined although only %.3g tolerances apart' % ((a[0], a[1]), (b[0], b[1]), dd / tol)
+    return None
+
+
 def property_on_impl(obs):
     """the property as worded, on what the implementation built (None = holds / not decidable)"""
+    jn = joining(obs)
+    if jn:
+        return jn
     N = len(obs['pulses'])
     k, amb = cluster_count(obs)
     if amb:
